@@ -1,8 +1,20 @@
 From Coq Require Import List NArith ZArith.
-From Stam Require Import Model.Offset Model.Json Model.TempId Model.StamJson Spec.StamJsonSpec Proofs.StamJson Proofs.StamJsonSave Props.C05.
+From Stam Require Import Model.Offset Model.Json Model.TempId Model.StamJson Spec.StamJsonSpec Proofs.StamJson Proofs.StamJsonSave
+     Proofs.StamJsonLoad Proofs.StamJsonAnn Proofs.StamJsonWhole Props.C05.
 Check (C05_value_codec : forall v, parse_val (json_of_val v) = Some v).
 Check (C05_selector_codec : forall k ls, target_ok k ls -> parse_target (json_of_target k ls) = Some (k, ls)).
 Check (C05_document_codec : forall b, bstore_ok b -> parse_bstore (json_of_bstore b) = Some b).
+Check (C05_roundtrip : forall s, wf_dstore s = true ->
+  exists d s', encode s = Some d /\ decode d = Some s' /\ (exists c, canon s = Some c /\ canon s' = Some c) /\ encode s' = Some d).
+Check (C05_decode_encode : forall s c, wf_dstore s = true -> canon s = Some c ->
+  exists s', decode (encode_c c) = Some s' /\ canon s' = Some c).
+Print Assumptions C05_roundtrip.
+Print Assumptions C05_decode_encode.
+Print Assumptions C05_encode_respects_model.
+Print Assumptions C05_wellformed_writable.
+Print Assumptions C05_gapfill_places.
+Print Assumptions C05_gapfill_public.
+Print Assumptions Known_C05_substore_order_witness.
 Check (C05_save_modify_save : forall st current,
   Reached st current -> NoDup (map fst current) ->
   forall f c, file_get current f = Some c -> file_get (fs_disk (flush current st)) f = Some c).
